@@ -24,6 +24,7 @@ def showObj (o : Obj) (a : Array String) : String :=
 
 def call (name : String) (o : Obj) (a : Array String) : String :=
   if name == "update_mobile" then let r := SiteLevelMethod__SiteLevelMethod__update_mobile o ; showObj r.1 a ++ " | " ++ "()" else
+  if name == "update_stationary" then let r := SiteLevelMethod__SiteLevelMethod__update_stationary o ; showObj r.1 a ++ " | " ++ "()" else
   "bad-op"
 
 partial def loop (h : IO.FS.Stream) : IO Unit := do
